@@ -12,7 +12,9 @@ LEAN_MODULES = ["Properties.C15TracksV1"]
 THEOREMS = [NS + t for t in [
     "v1t_C15_no_ub", "v1t_C15_invariant", "v1t_C15_empty", "v1t_C15_reachable_no_ub", "v1t_C15_ceil_exact",
     "v1t_C15_reachable_no_ub_exact_ceil", "v1t_C15_write_any_snapshot", "v1t_C15_slot_any_index",
-    "v1t_C15_stale_handle"]]
+    "v1t_C15_stale_handle_one_step", "v1t_C15_stale_handle_partial", "v1t_C15_stale_handle_counterexample",
+    "v1t_C15_duration_overflow_counterexample", "v1t_C15_sites", "v1t_C15_guarded_step",
+    "v1t_C15_guarded_reachable_no_ub", "v1t_C15_guard_dropped_counterexample"]]
 ASSUMPTIONS = [
     "tracks 1.x: the model (EngineModel/TracksV1, tied by C01/C06 and again here) makes these undefined-behaviour "
     "sources explicit: vector index in the four per-slot accessors and in the waveform resampling loop (oob_index), "
